@@ -546,21 +546,73 @@ Fixpoint funcs_dict (acc : list IFunction) (l : list IFunction) : list IFunction
 
 Definition has_slash (s : str) : bool := existsb (N.eqb 47) s.
 
-(* serde.deserialize_model.  Not modelled (Raise OtherError): the IR < 10 experimental format that
-   stores function value-info in the main graph under names "domain::function/value".
+(* str.split("/") and str.split("::") *)
+Fixpoint split_slash (s : str) (cur : str) : list str :=
+  match s with
+  | [] => [rev cur]
+  | c :: r => if (c =? 47)%N then rev cur :: split_slash r [] else split_slash r (c :: cur)
+  end.
+Fixpoint split_colons (s : str) (cur : str) : list str :=
+  match s with
+  | [] => [rev cur]
+  | c :: r => match r with
+              | c2 :: r2 => if ((c =? 58) && (c2 =? 58))%N then rev cur :: split_colons r2 []
+                            else split_colons r (c :: cur)
+              | [] => [rev (c :: cur)]
+              end
+  end.
+(* serde._parse_experimental_function_value_info_name: "{domain}::{function}/{value}" *)
+Definition parse_exp (name : str) : option (str * str * str) :=
+  match split_slash name [] with
+  | [fpart; vname] => match split_colons fpart [] with
+                      | [d; f] => Some (d, f, vname)
+                      | _ => None
+                      end
+  | _ => None
+  end.
+
+(* serde._deserialized_experimental_value_info_for_function_ir9, for one function: the main-graph
+   value-info entries whose name designates this function (overload "") are applied to its inputs and node
+   outputs of that name (the last entry of a name wins) *)
+Definition exp_entries (vinfos : list VInfoP) (f : IFunction) : list (str * VInfoP) :=
+  dict_of (concat (map (fun vi => match parse_exp (dflt [] (vi_name vi)) with
+                                  | Some (d, fn, v) =>
+                                      if str_eqb d (if_domain f) && str_eqb fn (if_name f) && str_eqb [] (if_overload f)
+                                      then [(v, vi)] else []
+                                  | None => []
+                                  end) vinfos)).
+Definition apply_exp_fn (vinfos : list VInfoP) (f : IFunction) : res IFunction :=
+  match exp_entries vinfos f with
+  | [] => Ok f
+  | mp =>
+      let g := if_graph f in
+      let keys := ig_inputs g ++ concat (map (fun n => in_outputs n) (ig_nodes g)) in
+      vals <- foldM (fun tbl k => match lookup k mp, lookup k tbl with
+                                  | Some vi, Some v => v' <- apply_info vi v ;; Ok (dset k v' tbl)
+                                  | _, _ => Ok tbl
+                                  end) keys (ig_values g) ;;
+      Ok (mkIFunction (if_domain f) (if_name f) (if_overload f)
+            (mkIGraph (ig_name g) (ig_doc g) (ig_meta g) (ig_opsets g) (ig_inputs g) (ig_inits g)
+                      (ig_nodes g) (ig_outputs g) vals)
+            (if_attrs f))
+  end.
+
+(* serde.deserialize_model.
    _resolve_node_device_configurations (which walks all nodes; reference attributes are skipped by the
    traversal) replaces placeholder configuration objects by the model's
    objects of the same name; only the name is serialized, so it is the identity here. *)
 Definition deser_model_fuel (fuel : nat) (m : ModelP) : res IModel :=
   let irv := dflt 0 (m_irv m) in
-  if (irv <? FUNCTION_VALUE_INFO_SUPPORTED_VERSION) && nonempty (m_funcs m)
-     && existsb (fun vi => has_slash (dflt [] (vi_name vi))) (g_vinfo (m_graph m))
-  then Raise OtherError else
   g <- deser_graph fuel [] (m_graph m) ;;
   let g' := mkIGraph (ig_name g) (ig_doc g) (ig_meta g) (dict_of (m_opsets m)) (ig_inputs g) (ig_inits g)
                      (ig_nodes g) (ig_outputs g) (ig_values g) in
   fs <- mapM (deser_function fuel) (m_funcs m) ;;
-  Ok (mkIModel irv (m_pname m) (m_pver m) (m_domain m) (m_mver m) (m_doc m) g' (funcs_dict [] fs)
+  (* experimental function value-info stored in the main graph, below the IR version that has
+     FunctionProto.value_info *)
+  fs' <- (if irv <? FUNCTION_VALUE_INFO_SUPPORTED_VERSION
+          then mapM (apply_exp_fn (g_vinfo (m_graph m))) (funcs_dict [] fs)
+          else Ok (funcs_dict [] fs)) ;;
+  Ok (mkIModel irv (m_pname m) (m_pver m) (m_domain m) (m_mver m) (m_doc m) g' fs'
                (dict_of (m_meta m))
                (map (fun c => (dflt [] (dc_name c), dflt 0 (dc_num c), dc_devices c)) (m_conf m))).
 (* fuel: one more than the nesting depth, so that the default (empty) graph of a GRAPH attribute
